@@ -12,6 +12,7 @@ import (
 	"github.com/milvus-io/milvus-proto/go-api/v2/commonpb"
 	"github.com/milvus-io/milvus/pkg/mq/msgstream"
 	"google.golang.org/protobuf/proto"
+	"google.golang.org/protobuf/reflect/protoreflect"
 
 	"github.com/zilliztech/milvus-cdc/core/api"
 	"github.com/zilliztech/milvus-cdc/core/config"
@@ -189,3 +190,5 @@ func decodeLikeProxy(b []byte) (msgstream.TsMsg, error) {
 	}
 	return fdDispatcher.Unmarshal(b, header.GetBase().GetMsgType())
 }
+
+func protoreflectString(s string) protoreflect.Value { return protoreflect.ValueOfString(s) }
